@@ -14,7 +14,8 @@ PROPERTY_ID = 'C12'
 RULE = ('C11 schema generator biased to signing structure (chains of rules, alternatives "<= #a | #b", named patterns shared between '
         'packet and key rules, constraints on shared patterns in the key rule, redefinitions with different signer lists). Pairs: ALL '
         '(packet, key) pairs over the names that match some rule plus a sample of non-matching names (<= 10^4 pairs per schema; names '
-        'of length 0..4 over schema literals + 2 fresh components), each side optionally suffixed with an implicit-digest component. '
+        'of length 0..4 over schema literals + 2 fresh components), each side optionally suffixed with an implicit-digest component and handed '
+        'over as list / tuple / one-shot iterator / generator / URI / wire; rules optionally moved out of dependency order in the text. '
         'Oracle: reference signing relation (exists definition D matching the packet with bindings B, signer K listed in D, chain of K '
         'matching the key under initial bindings B with ALL of K\'s constraints evaluated); corollary check True => key matches some '
         'rule. Both directions, direct checker and after save()/load(). Non-trivial = a shared named pattern constrained in the key '
